@@ -22,7 +22,7 @@ import time
 from types import SimpleNamespace as NS
 
 from vlib import par
-from vlib.harness import to_ad, tmpdir
+from vlib.harness import to_ad, tmpdir, patched
 from vlib.session import Session, unjson, chash
 
 PID = "C06"
@@ -203,6 +203,37 @@ def check_case(case, sess: Session):
             with open(os.path.join(d, n), "w") as f:
                 f.write('{"version_etag": "666", "schema_version": "v1", "gel": {"nodes": {}, "edges": {"q→r": {"src": "q", "dst": "r", "weight": 1}}}}')
             os.utime(os.path.join(d, n), (now + 100 + i, now + 100 + i))
+        # real writer leftovers: a temp file exactly as the atomic writer creates it, and the leftover of a write
+        # that is killed at the rename (BaseException is not swallowed by the writer's cleanup)
+        import clematis.io.atomic as A
+        from pathlib import Path as _P
+
+        try:
+            tmp = A._make_tmp(_P(path))
+            with open(tmp, "w") as f:
+                f.write('{"version_etag": "667", "schema_version": "v1"}')
+            os.utime(tmp, (now + 500, now + 500))
+            sess.count("real_temp_leftovers_planted")
+        except Exception as ex:
+            sess.inconclusive_because(f"could not plant a real temp leftover: {ex}")
+
+        class _Kill(BaseException):
+            pass
+
+        def _killed(a, b):
+            raise _Kill()
+
+        before_names = set(os.listdir(d))
+        try:
+            with patched(A.os, "replace", _killed):
+                A.atomic_write_text(path, '{"version_etag": "668", "schema_version": "v1"}')
+        except _Kill:
+            pass
+        for n in set(os.listdir(d)) - before_names:
+            os.utime(os.path.join(d, n), (now + 600, now + 600))
+            sess.count("killed_write_leftovers")
+        if open(path, "rb").read() != body1:
+            sess.violation("killed-write-changed-destination", case, None)
         picked = S._pick_latest_snapshot_path(d)
         sess.count("discovery_calls")
         if picked is None or os.path.realpath(picked) != os.path.realpath(path):
@@ -318,6 +349,8 @@ def main(tier: str, seed: int):
     sess.require("rewrites_compared", 500)
     sess.require("cases_with_sanitised_edges", 100)
     sess.require("discovery_calls", 300)
+    sess.require("real_temp_leftovers_planted", 300)
+    sess.require("killed_write_leftovers", 300)
     sess.finish()
 
 
